@@ -64,7 +64,7 @@ PROPS = {
                 slices=['regex'], monitors=['c05'],
                 pending=['regex_cost_bound (abstract cost model under "the engine honours its timeout")']),
     'C06': dict(obligations=lambda: P('SqProps.C06') + TIE_PREC + TIE_TOK + TIE_LEX + TIE_GRAM,
-                slices=['parse_tok', 'parse_rand', 'lex_chars'], monitors=['c06'],
+                slices=['parse_tok', 'parse_rand', 'lex_chars', 'session_cache'], monitors=['c06'],
                 pending=[]),
     'C07': dict(obligations=lambda: P('SqProps.C07') + TIE_FN + TIE_CONST,
                 slices=['prog', 'ops'], monitors=[],
